@@ -2825,3 +2825,34 @@ pub mod rawfx {
         build(v, size)
     }
 }
+
+// ---------------------------------------------------------------- R-CLEAR.cursors
+pub mod curfx {
+    use std::sync::atomic::{AtomicUsize, Ordering};
+    pub struct BadRing { pub head: AtomicUsize, pub tail: AtomicUsize, pub count: AtomicUsize, pub plain: bool }
+    impl BadRing {
+        pub fn pop(&mut self) -> bool {
+            if self.count.load(Ordering::Relaxed) == 0 { return false; }
+            self.head.store((self.head.load(Ordering::Relaxed) + 1) % 8, Ordering::Relaxed);
+            self.count.fetch_sub(1, Ordering::Relaxed); true
+        }
+        pub fn clear(&mut self) {
+            if self.plain {
+                self.head.store(0, Ordering::Release);
+                self.count.store(0, Ordering::Release);
+                return;
+            }
+            while self.pop() {}
+        }
+    }
+    pub struct OkRing { pub head: usize, pub tail: usize, pub len: usize, pub plain: bool }
+    impl OkRing {
+        pub fn pop(&mut self) -> bool { if self.len == 0 { return false; } self.head = (self.head + 1) % 8; self.len -= 1; true }
+        pub fn clear(&mut self) {
+            if !self.plain { while self.pop() {} }
+            self.head = 0;
+            self.tail = 0;
+            self.len = 0;
+        }
+    }
+}
